@@ -20,7 +20,17 @@ SCOPING (decisions taken so that the check is free of false alarms; DESIGN secti
    non-origin SOA (DESIGN 4.5).  Text-lossy records (grammar flag) are never put in zones.
    In the respelling part "normalizing" records are left out too: the expected content is
    computed from the generated wire.
- * empty rdatasets are not generated (they have no text form by design).
+ * empty rdatasets are not generated (they have no text form by design); an empty rdcomment is
+   not generated either (the writer prints a comment only when it is non-empty).
+ * singleton types (dns.rdatatype.is_singleton: SOA, CNAME, DNAME, NSEC): the respelling model
+   holds at most one record per owner -- a second one replaces the first by design
+   (Rdataset.add), also when a zone file is read.
+ * a generated record whose own text does not parse back to an equal record is C05's business
+   (seen: vlib.gen.rdata can emit an NSEC/CSYNC bitmap with bit 0 set without the text-lossy
+   flag); such a record is left out and counted (dropped:text-codec:<type>).
+ * a freshly constructed dns.btreezone.Zone cannot open a non-replacement writer (ValueError
+   "original BTree is not immutable" -- incidental finding, reported, C20's business): its first
+   transaction here is writer(True), which is what from_text() uses.
  * $GENERATE: only what Reader._generate_line documents/implements is used: one "$" (with or
    without a ${offset[,width[,base]]} modifier) per side, a single-token right-hand side (a
    quoted rhs is not accepted by the reader, so MX-like patterns are left out), nibble mode
@@ -41,7 +51,10 @@ flag each (flip the flag after /repo is fixed; the counter class shows how often
                             NeedAbsoluteNameOrOrigin in Rdataset.to_styled_text  (excluded:D9)
  * EXCLUDE_GENERIC_READ     "\\# len hex" RDATA of a known type whose embedded name lies at or
                             below the current origin is refused by dns.rdata.from_text whenever an
-                            origin is given, i.e. always in a zone file (excluded:generic-read)
+                            origin is given, i.e. always in a zone file (excluded:generic-read).
+                            A relativized zone needs both D9 and this one repaired before
+                            want_generic can round-trip; with EXCLUDE_D9 = False alone such a case
+                            is still excluded under this flag.
  * EXCLUDE_TOTEXT_STYLE     Zone.to_text(style=...) ignores the style  (excluded:to_text-style)
  * EXCLUDE_NAME_JUST_POS    name_just > 0 pads the owner on the left: every line then starts
                             with white space = "same owner as before"   (excluded:name-just-positive)
@@ -839,7 +852,12 @@ def respell_cases(draw):
         junk_owners = [j for j in junk_owners if not _is_sub(j, origin)]
     for it in items:
         k = draw(st.integers(0, 15))
-        if k == 0:
+        if it["k"] == "gen" and k >= 12:
+            # a $GENERATE whose left-hand side is relative to a mid-file origin
+            lb = G.unhexl(it["lbase"])
+            cur = lb[1:] if lb[1:] != origin else lb
+            out.append({"k": "origin", "to": G.hexl(cur), "v": 1})
+        elif k == 0:
             out.append({"k": "blank", "v": draw(st.integers(0, 3))})
         elif k == 1:
             out.append({"k": "comment", "v": draw(st.integers(0, 1)),
@@ -1108,8 +1126,8 @@ def parts(tier):
         rs_req["factory:" + f] = 300 if q else 5000
     rs_req.update({"relativize:True": 300 if q else 5000, "relativize:False": 300 if q else 5000})
     return [
-        Part("roundtrip", run_roundtrip, strategy=roundtrip_cases(), n={"quick": 800, "thorough": 16 * 5000}, require=rt_req,
+        Part("roundtrip", run_roundtrip, strategy=roundtrip_cases(), n={"quick": 800, "thorough": 10000}, require=rt_req,
              shards={"quick": 8, "thorough": 16}),
-        Part("respell", run_respell, strategy=respell_cases(), n={"quick": 800, "thorough": 16 * 5000}, require=rs_req,
+        Part("respell", run_respell, strategy=respell_cases(), n={"quick": 800, "thorough": 10000}, require=rs_req,
              shards={"quick": 8, "thorough": 16}),
     ]
